@@ -58,8 +58,16 @@ claim("C02", "other",
       "Trusted: clang 14 + tbfscan, slot resolver and the frozen operator role table (rules/coherence.py ROLES, from the shipped kernels' signatures).",
       "slot-level role-coherence, level/role origin analysis and array-fill idiom rules over the clang AST", "DESIGN.md §2 C02")
 
+claim("C06", "other",
+      "Four structural clauses: (1) zero state - group memory is allocated only in TbfMemoryBlock::resetBlocksFromSizes and on every path the memset of the allocation lies between the (re)allocation decision and item construction, group constructors size every block through it; "
+      "(2) no narrowing on the copy path - a witness with real=float, data=double(/long double) through constructor, rebuild, export and target/source trees compiled with -Wconversion must be silent under src/core and src/containers; "
+      "(3) execution cannot alter symbolic data - a probe kernel instantiated through the sequential, OpenMP, target/source and periodic top-tree executors sees headers as const and particle data as pointers to const at every operator, and shipped kernels cast const away only into const callee parameters; "
+      "(4) a curve index is never converted twice in an ordering class with Morton<->curve converters. The position->leaf arithmetic (floor, clamping, rounding) and uniqueness are value-level and not decided. Particle *indices* are handed to L2P/P2P as `long*` by the wrapper; shipped kernels take them const - noted, not claimed.",
+      "Trusted: clang 14 + tbfscan, g++ -Wconversion as narrowing oracle, g++/clang++ for the probe witness.",
+      "must-pass-through / who-may-allocate rules, -Wconversion witness, type-level probe kernel, curve-domain typing", "DESIGN.md §2 C06")
+
 _todo = "check not built yet in this round (see DESIGN.md §7 build order)"
-for p in ["C06","C08","C10","C11","C14","C15","C20"]:
+for p in ["C08","C10","C11","C14","C15","C20"]:
     NA[p] = _todo
 NA["C01"] = "exactly-once is a counting statement over all particle sets, heights, dimensions and groupings; no lint/effect/type argument bounds the list-builder arithmetic. Structural prerequisites are decided under C02/C03/C08/C11/C12."
 NA["C04"] = "bound on a floating-point truncation error over all positions/heights/orders: nothing about it is visible in the shape of the code (accumulate clause is under C08, code conventions under C11)."
